@@ -2,6 +2,7 @@
  * a quiet sine with one sharp click every <period> samples, so that the encoder really alternates between long and short
  * blocks in the middle of the stream (mkzoo's impulse/mix signals click too often for 2048-sample blocks).
  * and sig=alt: the channels are alternately digitally silent for <period> samples (unused floors inside a coupled pair).
+ * and sig=tsil: tone for the first and the last <period> samples, exact digital silence in between (all channels).
  * mkzoo: encode a deterministic signal with the real libvorbisenc into one Ogg link.
  * usage: mkzoo out.ogg rate=8000 ch=1 n=3000 q=0.3 serial=1 sig=sine pages=natural|flush|<k>
  *              goff=0 tag=LINK0 managed=max,nom,min chunk=1024
@@ -70,6 +71,7 @@ int main(int argc,char **argv){
             else if(!strcmp(sig,"impulse"))v=(t%700==(350+13*k))?0.9f:0.f;
             else if(!strcmp(sig,"clicks")){ long ph=t%period-period/2; v=0.2f*sinf(2*M_PI*(330.0+55.0*k)*t/rate); if(ph>=0&&ph<6)v+=(ph&1?-0.9f:0.9f)/(1+ph); }
             else if(!strcmp(sig,"alt")){ long seg=(t/period)%3; v=((seg==k)||(seg==2))?0.4f*sinf(2*M_PI*(300.0+130.0*k)*t/rate)+0.05f*noise():0.f; }
+            else if(!strcmp(sig,"tsil")){ v=(t<period||t>=n-period)?0.35f*sinf(2*M_PI*(440.0+90.0*k)*t/rate)+0.1f*sinf(2*M_PI*(1310.0+70.0*k)*t/rate):0.f; }
             else if(!strcmp(sig,"mix"))v=0.3f*sinf(2*M_PI*(300.0+170.0*k)*t/rate)+0.2f*noise()+((t%1500)==700?0.8f:0.f);
             b[k][j]=v;
           }
